@@ -622,6 +622,7 @@ impl<'a> Hist<'a> {
                     "mid" => frames / 2,
                     "tree1" => TF + HF / 2,
                     "freed" => self.last_freed?.0,
+                    k if k.starts_with("f:") => k[2..].parse().ok()?,
                     _ => return None,
                 };
                 Some(Op::Get(o, sym(&a[2]) as u8, osl(&a[3]), Some((f >> o) << o)))
@@ -662,6 +663,7 @@ impl<'a> Hist<'a> {
                 "never" => Some(Op::Put(((frames.checked_sub(1)?) >> 3) << 3, 3, 0, None)),
                 _ => None,
             },
+            "putraw" => Some(Op::Put(sym(&a[1]), sym(&a[2]), 0, None)),
             "drain" => Some(Op::Drain),
             "change" => Some(Op::Change(
                 osl(&a[1]),
